@@ -57,9 +57,6 @@ func c06RunWL(c c06WL) error {
 	if _, ok := treeSize(len(kept), w.Length, len(m.Values), w.Scheme, w.Sep.Kind != "const", capL); !ok {
 		return &ev.Skip{Why: "tree too large"}
 	}
-	if _, _, ok := capSubsets(w.Scheme, w.Length); !ok {
-		return &ev.Skip{Why: "scheme"}
-	}
 	ent := r.Entropy()
 	d, err := enumWL(r, capL+10)
 	if err != nil {
@@ -182,6 +179,12 @@ func TestC06(t *testing.T) {
 	ev.Check(t, "c06_wl", ev.N(320, 3200), func(t *rapid.T) c06WL {
 		// bias to lists with uncapitalisable / pre-capitalised words under one/random
 		w := genSmallWL(t, ev.Pick(20000, 200000), true, nil)
+		if rapid.IntRange(0, 9).Draw(t, "odd_scheme") == 0 {
+			// spellings the library does not define: whatever it does with them,
+			// the reported entropy must not overstate
+			w.Scheme = rapid.SampledFrom([]string{"Random", "RANDOM", " one", "One", "random ", "weird", "", "ALL"}).Draw(t, "odd")
+			return c06WL{w}
+		}
 		if rapid.IntRange(0, 1).Draw(t, "force_caps") == 0 {
 			w.Scheme = rapid.SampledFrom([]string{"one", "random"}).Draw(t, "capscheme")
 			if w.Length > 3 {
